@@ -833,8 +833,12 @@ func (f *frame) applyContract(at ssa.Instruction, ct *Contract, args []T, st *St
 	for _, t := range ct.Assumes {
 		e.assumed[t] = true
 	}
-	if ct.IsIface && len(ct.Ensures) > 0 {
-		e.assumed["interface contract of "+ct.Key+" assumed at calls through the interface; the module's implementations restate and prove its clauses by hand (refinement is not machine-checked)"] = true
+	if ct.IsIface && len(ct.Ensures)+len(ct.Summary) > 0 {
+		if ct.Refined {
+			e.assumed["interface contract of "+ct.Key+" assumed at calls through the interface; every contracted implementation in the module is checked against its ensures clauses (obligations of kind refine), its summary clauses are assumed"] = true
+		} else {
+			e.assumed["interface contract of "+ct.Key+" assumed at calls through the interface; the module's implementations restate and prove its clauses by hand (refinement is not machine-checked)"] = true
+		}
 	}
 	env := &specEnv{f: f, vars: map[string]T{}, cur: st, old: st, pkg: ct.Pkg, lets: ct.Lets}
 	for i, n := range ct.ParamNames {
